@@ -345,6 +345,37 @@ def check_class(run, repo, eff, fr, ci, fams, encs):
                         bad('C03-L', 'user-bank source', 'the user-bank form must store Rmode[i, 0b10000]; found `%s`' % fmt(v)[:80])
                 elif not (v[0] == 'reg' and v[1][0] == 'loopvar' and v[1][2] == lid):
                     bad('C03-L', 'stored register', 'the loop stores `%s`, not R[i]' % fmt(v)[:80])
+        if not fam.load:
+            # the real store of R[i] must happen for every listed register except in the base-in-list-not-lowest (UNKNOWN) case
+            def truth(t, u, w, lo):
+                if not isinstance(t, tuple) or not t:
+                    return None
+                if t[0] == 'not':
+                    r = truth(t[1], u, w, lo)
+                    return None if r is None else not r
+                if t[0] in ('and', 'or'):
+                    rs = [truth(x, u, w, lo) for x in t[1]]
+                    if t[0] == 'and':
+                        return False if False in rs else (True if all(r is True for r in rs) else None)
+                    return True if True in rs else (False if all(r is False for r in rs) else None)
+                if t == ('field', 'wback'):
+                    return w
+                if t[0] == 'cmp' and t[1] in ('Eq', 'NotEq'):
+                    for a, b in ((t[2], t[3]), (t[3], t[2])):
+                        if a[0] == 'loopvar' and (b == ('field', 'n') or (fam.stack and b == const(13))):
+                            return u if t[1] == 'Eq' else not u
+                        if a[0] == 'loopvar' and b[0] == 'call' and b[1] == 'lowest_set_bit_ref':
+                            return (not lo) if t[1] == 'Eq' else lo
+                return None
+            real = [e for e in tr.events if e.kind == 'MemWrite' and e.loops and norm(e.d['value']) != const(0)]
+            for u in (False, True):
+                for w in (False, True):
+                    for lo in (False, True):
+                        if u and lo and (w or fam.stack):
+                            continue          # the UNKNOWN case (PUSH always writes SP back)
+                        if not any(all(truth(t, u, w, lo) in (None, pol) for t, pol, _ in e.guards) for e in real):
+                            bad('C03-L', 'register not stored', 'a listed register is not stored when (i == n)=%s, wback=%s, '
+                                '(i != lowest listed)=%s: only the base-in-list-not-lowest case may store UNKNOWN' % (u, w, lo))
         if user and fam.load and not any(e.kind == 'RmodeWrite' for e in tr.events):
             bad('C03-L', 'user-bank target', 'no Rmode[i, 0b10000] write in the user-bank load')
         if fam.load and not user and not any(e.kind == 'RegWrite' and e.loops for e in tr.events):
@@ -422,6 +453,9 @@ def check_class(run, repo, eff, fr, ci, fams, encs):
             if len(reads) != 2 or forms[0] != s or forms[1] != ladd(s, {1: 4}):
                 bad('C03-S', 'RFE addresses [%s]' % tag, 'RFE reads %s; the table gives %s and %s' % (
                     ', '.join(show(f) for f in forms), show(s), show(ladd(s, {1: 4}))))
+            if any(norm(e.d['size']) != const(4) or e.d['kind'] != 'a' for e in reads):
+                bad('C03-S', 'RFE word size [%s]' % tag, 'RFE loads two words through MemA; found sizes %s' % ', '.join(
+                    fmt(norm(e.d['size'])) for e in reads))
             for e in evs:
                 if e.kind == 'Branch' and reads:
                     v = norm(pe(e.d['target'], asg))
@@ -450,6 +484,9 @@ def check_class(run, repo, eff, fr, ci, fams, encs):
             if len(writes) != 2 or forms[0] != s or forms[1] != ladd(s, {1: 4}):
                 bad('C03-S', 'SRS addresses [%s]' % tag, 'SRS writes %s; the table gives %s and %s' % (
                     ', '.join(show(f) for f in forms), show(s), show(ladd(s, {1: 4}))))
+            elif any(norm(e.d['size']) != const(4) or e.d['kind'] != 'a' for e in writes):
+                bad('C03-S', 'SRS word size [%s]' % tag, 'SRS stores two words through MemA; found sizes %s' % ', '.join(
+                    fmt(norm(e.d['size'])) for e in writes))
             elif vals_[0] != ('reg', const(14)) or vals_[1] != ('spsr',):
                 bad('C03-S', 'SRS values', 'SRS stores LR at the lower and SPSR at the higher word; found %s' % ', '.join(fmt(v) for v in vals_))
             final = ladd(rb, {1: 8}, 1 if asg['increment'] else -1)
